@@ -205,7 +205,12 @@ int main(int argc, char** argv)
             int         ts, mlf100;
             Cfg         g;
             t >> kind >> g.cap >> ts >> mlf100 >> g.ttl >> g.tick >> g.rnum >> g.rsh >> g.flavour >> g.keys;
-            if (!kind_from(kind, g.kind) || !t)
+            bool okc = static_cast<bool>(t);
+            if (!(t >> g.us))
+                g.us = 250;
+            g_us_per_tick = g.us;
+            g_now_ms      = 1000; // every execution starts its own clock (keeps tick counts small)
+            if (!kind_from(kind, g.kind) || !okc)
             {
                 fprintf(stderr, "bad cfg line %ld\n", lineno);
                 return 2;
@@ -220,18 +225,19 @@ int main(int argc, char** argv)
             fprintf(
                 g_out,
                 "{\"e\":\"cfg\",\"kind\":\"%s\",\"cap\":%zu,\"ts\":%d,\"mlf\":%d,\"ttl\":%d,\"tick\":%d,\"rnum\":%d,"
-                "\"rsh\":%d,\"fl\":%d,\"keys\":%d,\"now\":%lld}\n",
+                "\"rsh\":%d,\"fl\":%d,\"keys\":%d,\"now\":%lld,\"us\":%lld}\n",
                 kind.c_str(),
                 g.cap,
                 ts,
                 mlf100,
-                g.ttl,
-                g.tick,
+                static_cast<int>(g.ttl * kTicksPerTtlUnit),
+                static_cast<int>(g.tick * kTicksPerTtlUnit),
                 g.rnum,
                 g.rsh,
                 g.flavour,
                 g.keys,
-                g_now_ms.load());
+                g_now_ms.load(),
+                g.us);
             fflush(g_out);
             S.c = make_cache(g);
             continue;
@@ -253,8 +259,8 @@ int main(int argc, char** argv)
             t >> k >> v >> a >> d;
             bool r = S.c->insert(k, v, a, d);
             if (r && S.caps.ttl_cache)
-                S.D[k] = {now + (S.caps.entry_ttl ? d : S.cur_ttl)};
-            emit(S, "ins", k, v, a, d, 0, 0, nokv, r ? 1 : 0, 0, norl);
+                S.D[k] = {now + kTicksPerTtlUnit * (S.caps.entry_ttl ? d : S.cur_ttl)};
+            emit(S, "ins", k, v, a, static_cast<int>(d * kTicksPerTtlUnit), 0, 0, nokv, r ? 1 : 0, 0, norl);
         }
         else if (op == "insr")
         {
@@ -270,8 +276,10 @@ int main(int argc, char** argv)
                     // insert_or_update always writes: the latest element for a key decides.
                     if (a == 3)
                         S.D[e.k].clear();
-                    S.D[e.k].insert(now + (S.caps.entry_ttl ? e.d : S.cur_ttl));
+                    S.D[e.k].insert(now + kTicksPerTtlUnit * (S.caps.entry_ttl ? e.d : S.cur_ttl));
                 }
+            for (auto& e : kv)
+                e.d = static_cast<int>(e.d * kTicksPerTtlUnit); // logged in ticks
             emit(S, "insr", 0, 0, a, 0, 0, var, kv, static_cast<long>(r), 0, norl);
         }
         else if (op == "era")
@@ -340,7 +348,7 @@ int main(int argc, char** argv)
             t >> d;
             S.c->update_ttl(d);
             S.cur_ttl = d;
-            emit(S, "uttl", 0, 0, 0, d, 0, 0, nokv, 0, 0, norl);
+            emit(S, "uttl", 0, 0, 0, static_cast<int>(d * kTicksPerTtlUnit), 0, 0, nokv, 0, 0, norl);
         }
         else if (op == "clear")
         {
